@@ -337,6 +337,42 @@ Theorem C17_mdns_query_name : forall c mac m, mm_response m = false ->
 Proof. exact mdns_query_name. Qed.
 Print Assumptions C17_mdns_query_name.
 
+(* with the cache clock ([now] in seconds; getMDNSCache / putMDNSCache read time.Now()) *)
+Theorem C17_mdns_at_response_names : forall c mac now m,
+  mm_response m = true -> cache_fresh c mac (mm_id m) now = false ->
+  map key (fst (fst (processMDNS_at c mac now m))) = ref_mdns_v4 (mm_resources m) /\
+  map key (snd (fst (processMDNS_at c mac now m))) = ref_mdns_v6 (mm_resources m) /\
+  cache_find (snd (processMDNS_at c mac now m)) mac (mm_id m) = Some (now + MDNS_CACHE_SECONDS)%Z.
+Proof. exact mdns_at_response_names. Qed.
+Print Assumptions C17_mdns_at_response_names.
+
+Theorem C17_mdns_at_response_cached : forall c mac now m,
+  mm_response m = true -> cache_fresh c mac (mm_id m) now = true -> processMDNS_at c mac now m = (([], []), c).
+Proof. exact mdns_at_response_cached. Qed.
+Print Assumptions C17_mdns_at_response_cached.
+
+(* the 5 minutes are exact: suppressed at every now' < now + 300, processed again from now + 300 on *)
+Theorem C17_mdns_cache_expiry : forall c mac now m now',
+  mm_response m = true -> cache_fresh c mac (mm_id m) now = false ->
+  let c' := snd (processMDNS_at c mac now m) in
+  cache_fresh c' mac (mm_id m) now' = (now' <? now + MDNS_CACHE_SECONDS)%Z.
+Proof. exact mdns_at_expiry. Qed.
+Print Assumptions C17_mdns_cache_expiry.
+
+Theorem C17_mdns_at_query : forall c mac now m, mm_response m = false ->
+  processMDNS_at c mac now m = (fst (processMDNS [] mac m), c).
+Proof. exact mdns_at_query. Qed.
+Print Assumptions C17_mdns_at_query.
+
+Example C17_mdns_at_example :
+  let m := mkMsg 7 true [] [mkRes [97;46;108;111;99;97;108;46] (MB_A [10;0;0;1])] in
+  let mac := [2;0;0;0;0;1] in
+  let c1 := snd (processMDNS_at [] mac 1000 m) in
+  fst (processMDNS_at c1 mac 1299 m) = ([], []) /\
+  map key (fst (fst (processMDNS_at c1 mac 1300 m))) = [([10;0;0;1], [97])].
+Proof. exact mdns_at_example. Qed.
+Print Assumptions C17_mdns_at_example.
+
 Example C17_mdns_example :
   let m := mkMsg 7 true [] [mkRes [109;121;104;111;115;116;46;108;111;99;97;108;46] (MB_A [192;168;0;7]);
                              mkRes [110;97;115;46;108;97;110;46] (MB_AAAA (repeat 1 16))] in
